@@ -115,6 +115,15 @@ def check_parse(rep, prog):
     rep.check(okc, "C04.R2.parser-failure-contained", "the parser call is covered by 'except Exception' (error note + hex dump)", where,
               "cls.parseUDToJson(...)", "an exception raised by a parser module is not caught by a handler for Exception: the section "
               "(and the PEL) is lost instead of being hex-dumped (handlers: %s)" % [h.data[1] for h in handlers])
+    imps = [e for e in I.events if e.kind == "import_module"]
+    oki = bool(imps)
+    for c in imps:
+        excs = [x.args[0] for x in (c.guard.args if isinstance(c.guard, Op) and c.guard.op == "and" else [c.guard])
+                if isinstance(x, Op) and x.op == "not" and isinstance(x.args[0], Sym) and x.args[0].kind == "exc"]
+        oki = oki and any(h.data[0] in excs for h in broad)
+    rep.check(oki, "C04.R2.parser-failure-contained", "importing the parser module is covered by 'except Exception' too", where,
+              "importlib.import_module(...)", "a parser module that fails to import with anything but ImportError (SyntaxError, missing data "
+              "file, ...) aborts the decode of the whole PEL instead of yielding an error note plus hex dump")
     # None / JSON-null results are replaced by error + hexdump
     nulls = [x for x in walk(r) if isinstance(x, Op) and x.op in ("eq", "is") and NONE in x.args]
     rep.check(bool(nulls), "C04.R2.parser-failure-contained", "a parser result of None is detected", where, "if value == None",
